@@ -3,6 +3,7 @@ package main
 import (
 	"bytes"
 	"encoding/json"
+	"github.com/go-openapi/swag"
 	"io"
 	"strconv"
 )
@@ -55,3 +56,5 @@ func sortStrings(a []string) {
 }
 
 func strconvUnquote(s string) (string, error) { return strconv.Unquote(s) }
+
+func swagIsInt(x float64) bool { return swag.IsFloat64AJSONInteger(x) }
